@@ -194,10 +194,15 @@ def repeated_lines_through_executor(rep):
         "case-only": ([("a", ["tool = mk('x')"], []), ("b", ["Tool = mk('x')"], ["a"])], ["a", "b"]),
         "three-sharing": ([("a", ["pass"], []), ("b", ["pass"], ["a"]), ("c", ["pass"], ["b"])], ["a", "b", "c"]),
         "blank-and-indent": ([("a", ["if x:", "    y = 1", "", "if z:", "    y = 1"], [])], ["a"]),
+        # a block without lines is still a block: it can be depended on, and ordering chains run through it
+        "empty-dependency": ([("a", [], []), ("b", ["b = 1"], ["a"])], ["a", "b"]),
+        "empty-in-the-middle": ([("a", ["a = 1"], []), ("b", [], ["a"]), ("c", ["c = 1"], ["b"])], ["a", "b", "c"]),
+        "empty-alone": ([("a", [], [])], ["a"]),
+        "empty-twice": ([("a", [], []), ("a", [], []), ("b", ["b = 1"], ["a"])], ["a", "b"]),
     }
     n = 0
     # the same name with scripts that differ only in white space (indentation, trailing blank) is a DIFFERENT script: ValueError
-    for la, lb in ((["if flag:", "    run(1)"], ["if flag:", "run(1)"]), (["x = 1"], ["x = 1 "]), (["x = 1"], [" x = 1"]), (["x = 1", ""], ["x = 1"])):
+    for la, lb in ((["if flag:", "    run(1)"], ["if flag:", "run(1)"]), (["x = 1"], ["x = 1 "]), (["x = 1"], [" x = 1"]), (["x = 1", ""], ["x = 1"]), ([], ["x = 1"]), ([], [""])):
         for first, second in ((la, lb), (lb, la)):
             q = (f"MetaData(MetaData(ds, {{'metadata_type': 'add_job_script', 'name': 'w', 'script': {first!r}, 'depends_on': []}}), "
                  f"{{'metadata_type': 'add_job_script', 'name': 'w', 'script': {second!r}, 'depends_on': []}}).Select(lambda e: e.Jets('A').Count())")
